@@ -13,6 +13,8 @@ State: the map model and the two repair switches (`mode`).  Common commands (→
   rotate <k>                          → `mm.terrain = mm.terrain[k:] + mm.terrain[:k]` → ok <dump> | error
   prefix <n>                          → `mm.terrain = mm.terrain[:n]` (same objects, same list positions) → ok <dump> | error
   extend <n> <base>                   → `mm.terrain = mm.terrain + n new tiles`        → ok <dump> | error
+  setitem <k> <base>                  → `mm.terrain[k] = <new tile>`                   → ok <dump> | error
+  popinsert                           → `mm.terrain.insert(0, mm.terrain.pop(-1))`     → ok <dump> | error
   elevs <e0,e1,…>                     → tile k gets elevation e_k (length must match) → ok | error
   dump                                → <dump>
   push / pop                          → save / restore the manager state (depth-first exploration of histories) → ok
@@ -97,6 +99,17 @@ def stepCommon (s : St) (line : String) : Option (St × String) :=
     match n.toNat?, base.toNat? with
     | some n, some base => some (applyMap s (setTerrain s.m (s.m.tiles ++ (List.range n).map (fun j => mkTile (base + j)))))
     | _, _ => some (s, "bad-op")
+  | ["setitem", k, base] =>
+    -- `mm.terrain[k] = TerrainTile(...)`: a single-object edit of the list; the whole list is re-stamped afterwards
+    match k.toNat?, base.toNat? with
+    | some k, some base =>
+      if k < s.m.tiles.length then some (applyMap s (setTerrain s.m (s.m.tiles.set k (mkTile base)))) else some (s, "error")
+    | _, _ => some (s, "bad-op")
+  | ["popinsert"] =>
+    -- `mm.terrain.insert(0, mm.terrain.pop(-1))`: two single-object edits, the list has its old length again
+    match s.m.tiles.getLast? with
+    | some t => some (applyMap s (setTerrain s.m (t :: s.m.tiles.dropLast)))
+    | none => some (s, "error")
   | ["reverse"] => some (applyMap s (setTerrain s.m s.m.tiles.reverse))
   | ["rotate", k] =>
     match k.toNat? with
